@@ -1343,6 +1343,9 @@ static int cfg_parse_internal(cfg_t *cfg, int level, int force_state, cfg_opt_t 
 			return STATE_EOF;
 		}
 
+		if (tok == CFGT_COMMENT && state != 0)
+			continue;	/* comments may appear between any two tokens */
+
 		switch (state) {
 		case 0:	/* expecting an option name */
 			if (opt && is_set(CFGF_DEPRECATED, opt->flags))
